@@ -179,6 +179,11 @@ func (ms *readWriteSegment) Close() error {
 	defer ms.Unlock()
 
 	err := multierr.Combine(
+		// Unmapping does not write dirty pages back: entries appended but
+		// not yet synced when the segment is closed (eg: on rollover) would
+		// otherwise never be made durable, since later syncs only flush the
+		// new current segment
+		ms.txnMappedFile.Flush(),
 		ms.txnMappedFile.Unmap(),
 		ms.txnFile.Close(),
 		// Write index file
